@@ -40,6 +40,7 @@ def build_all(ctx: common.Ctx, pool: Pool, wd: str, progs: list[dict[str, Any]],
                   "args": {"files": progs[index[n]]["files"], "outdir": os.path.join(wd, n, primary), "config": primary},
                   "_prog": n, "_attempt": a} for n, a in pending]
         pending = []
+        deferred: list[tuple[str, int, dict[str, Any]]] = []
         for t, r in pool.imap(tasks, timeout=1800):
             name = t["_prog"]
             prog = progs[index[name]]
@@ -65,12 +66,38 @@ def build_all(ctx: common.Ctx, pool: Pool, wd: str, progs: list[dict[str, Any]],
                 progs[index[name]] = P.drop_units(prog, set(bad))
                 pending.append((name, t["_attempt"] + 1))
                 continue
+            if t["_attempt"] < MAX_REBUILDS and not res.get("timeout") and (res.get("c_units") or res.get("internal")):
+                deferred.append((name, t["_attempt"], res))
+                continue
             dead.add(name)
             why = "mypyc-internal-error" if res.get("internal") else "c-compiler-error" if res.get("c_errors") else "build-failed"
             ctx.inconc(f"program-not-built:{why}")
             ctx.extra.setdefault("build_failures", []).append(
                 {"program": name, "config": primary, "why": why, "internal": (res.get("internal") or {}).get("last"),
                  "where": (res.get("internal") or {}).get("where"), "c_errors": res.get("c_errors"), "log": res.get("log", "")[-1200:]})
+        for name, attempt, res in deferred:  # (outside the imap loop: the pool serves one stream of tasks at a time)
+            prog = progs[index[name]]
+            culprits: set[str] = set(res.get("c_units") or [])
+            why2 = "unit-rejected-by-C-compiler"
+            if not culprits and res.get("internal"):
+                culprits = _bisect_internal(pool, wd, prog)
+                why2 = "unit-crashes-mypyc"
+            culprits &= {x["name"] for x in prog["units"]}
+            if not culprits:
+                dead.add(name)
+                ctx.inconc("program-not-built:" + ("mypyc-internal-error" if res.get("internal") else "c-compiler-error"))
+                ctx.extra.setdefault("build_failures", []).append(
+                    {"program": name, "config": primary, "internal": (res.get("internal") or {}).get("last"),
+                     "where": (res.get("internal") or {}).get("where"), "c_errors": res.get("c_errors"), "log": res.get("log", "")[-1200:]})
+                continue
+            for u in sorted(culprits):
+                x = next(x for x in prog["units"] if x["name"] == u)
+                ctx.inconc(why2)
+                ctx.extra.setdefault("mypyc_compile_failures", []).append(
+                    {"why": why2, "unit_kind": x["kind"], "detail": (res.get("c_errors") or [(res.get("internal") or {}).get("last")])[0],
+                     "where": (res.get("internal") or {}).get("where"), "source": x["src"][:1500]})
+            progs[index[name]] = P.drop_units(prog, culprits)
+            pending.append((name, attempt + 1))
     tasks = []
     for p in progs:
         if p["name"] in dead:
@@ -92,6 +119,17 @@ def build_all(ctx: common.Ctx, pool: Pool, wd: str, progs: list[dict[str, Any]],
         built[(t["_prog"], t["_cfg"])] = r["res"]
         ctx.cell(f"build:{t['_cfg']}:ok")
     return built
+
+
+def _bisect_internal(pool: Pool, wd: str, prog: dict[str, Any]) -> set[str]:
+    """mypyc itself raised: run its front end + C generation on every unit alone (with the prelude) to find which."""
+    tasks = [{"fn": "vlib.c05_harness:task_cgen", "args": {"source": P.standalone(u), "outdir": os.path.join(wd, prog["name"], "cgen-" + u["name"])},
+              "_unit": u["name"]} for u in prog["units"]]
+    bad: set[str] = set()
+    for t, r in pool.imap(tasks, timeout=900):
+        if r.get("ok") and not r["res"].get("ok") and r["res"].get("traceback"):
+            bad.add(t["_unit"])
+    return bad
 
 
 def drive_tasks(wd: str, progs: list[dict[str, Any]], built: dict[tuple[str, str], dict[str, Any]], mode: str,
